@@ -1,5 +1,6 @@
 // Correspondence harness for C03: StringUtils::EscapeHTMLSpecialChars on exact-size buffers.
 //   esc <auto> <w> <units>   ->  units appended to the stream
+#include "ledger.hpp"
 #include "common.hpp"
 #include "StringStream.hpp"
 #include "StringUtils.hpp"
